@@ -180,6 +180,32 @@ def numbering(kind, n, rng=None):
         if n and all(v < 10 ** 9 for v in f.values()):
             f[rng.randrange(n)] += 10 ** 9
         return f
+    if kind == "top":
+        # the largest legal state numbers: the driver maps 1 999 999 999 - k to SIZE_MAX - k; one state (often the only one) gets
+        # SIZE_MAX itself, some others sit just below, the rest keep small numbers
+        f = {q: q for q in range(n)}
+        if n:
+            order = list(range(n))
+            rng.shuffle(order)
+            f[order[0]] = 1999999999
+            for j, q in enumerate(order[1:], 1):
+                if rng.random() < 0.3:
+                    f[q] = 1999999999 - j
+        return f
+    if kind == "pow2":
+        # state numbers at and around powers of two (thresholds of dense tables, bit vectors, packed fields)
+        used = set()
+        f = {}
+        for q in range(n):
+            while True:
+                v = (1 << rng.choice([3, 4, 5, 6, 7, 8, 10, 12, 13, 14, 15, 16, 17, 20, 24, 29])) + rng.choice([-1, 0, 0, 1])
+                if rng.random() < 0.3:
+                    v = q
+                if v not in used:
+                    break
+            used.add(v)
+            f[q] = v
+        return f
     if kind == "perm":
         p = list(range(n))
         rng.shuffle(p)
@@ -240,6 +266,8 @@ def present_pair(c, rng, disjoint=False):
         d["B"] = {"fin": list(A["fin"]), "rules": [list(r) for r in A["rules"]]}
         d["bmode"] = rng.choice(["alias", "copy"])
         d["syms"] = syms_of(A)
+    if rng.random() < 0.06:
+        d["build"] = "load"        # operands assembled through LoadFromAutDesc instead of AddTransition / SetStateFinal
     if c.get("op") in ("incl", "union", "isect", "uniondisj") and rng.random() < 0.1:
         d["amode"] = "copy"        # a copy of A (sharing its storage) is alive during the call and read back afterwards
     if c.get("op") == "incl" and rng.random() < 0.3:
